@@ -218,12 +218,23 @@ class C03(PropCheck):
                     ch.driver.send(None)
                 except (StopIteration, StopAsyncIteration, chains.Probe2):
                     break          # (the thrown-into generator re-raises what was thrown once its cleanup is done)
-            st = stackscope.extract(ch.x)
+            static_exit = "with_static_exit" in case.get("links", [])
+            import contextlib as _cl
+            import io as _io
+            import warnings as _w
+
+            from stackscope._lowlevel import InspectionWarning
+
+            with _w.catch_warnings(), _cl.redirect_stderr(_io.StringIO()):
+                if static_exit:
+                    # half of these chains are extracted by an application that runs with InspectionWarning as an error
+                    _w.simplefilter("error" if len(case["links"]) % 2 else "ignore", InspectionWarning)
+                st = stackscope.extract(ch.x)
             st_nc = stackscope.extract(ch.x, with_contexts=False)
             env, ids = heap_env(ch.x)
             case["_env"] = env
             out = show(st, ids)
-            dropped_self = "with_del_self" in case.get("links", [])
+            dropped_self = "with_del_self" in case.get("links", []) or static_exit
             if dropped_self:
                 # with contexts on, the one thing that cannot be determined (the exiting manager whose __aexit__ deleted its
                 # `self`) is reported as a contained KeyError; everything else must be as without contexts
@@ -235,7 +246,7 @@ class C03(PropCheck):
             elif [f.pyframe for f in st.frames] != [f.pyframe for f in st_nc.frames] or \
                     [f.lineno for f in st.frames] != [f.lineno for f in st_nc.frames]:
                 prob = "with_contexts on/off give different frames"
-            elif st.error is not None and not (dropped_self and all(isinstance(e, KeyError) for e in getattr(st.error, "exceptions", [st.error]))):
+            elif st.error is not None and not (dropped_self and all(isinstance(e, (KeyError, InspectionWarning)) for e in getattr(st.error, "exceptions", [st.error]))):
                 prob = f"error {st.error!r}"
             elif st_nc.error is not None:
                 prob = f"error without contexts {st_nc.error!r}"
